@@ -1,6 +1,8 @@
 package types
 
 import (
+	"strconv"
+
 	"github.com/tinylib/msgp/msgp"
 	"github.com/valyala/fastjson"
 )
@@ -43,6 +45,14 @@ func AppendJSONValue(buf []byte, v *fastjson.Value) ([]byte, error) {
 		s, _ := v.StringBytes()
 		return msgp.AppendStringFromBytes(buf, s), nil
 	case fastjson.TypeNumber:
+		// fastjson's own float parser is "best effort": for numbers in exponent
+		// notation (1.000001e+06, 7.5e-08) it can be off by one unit in the last
+		// place, so the same JSON number would get a different value here than on
+		// the /1/events path. Parse the number text exactly.
+		var scratch [32]byte
+		if f, err := strconv.ParseFloat(string(v.MarshalTo(scratch[:0])), 64); err == nil {
+			return msgp.AppendFloat64(buf, f), nil
+		}
 		return msgp.AppendFloat64(buf, v.GetFloat64()), nil
 	case fastjson.TypeTrue:
 		return msgp.AppendBool(buf, true), nil
